@@ -25,7 +25,7 @@ def teardown(_):
 def gen(rng, tier):
     n = 70 if tier == "quick" else 900
     for t in range(n):
-        c = gtio.gen_content(rng, maxs=4, maxv=6, allow_half_missing=False, multibase_ref=(t % 6 == 5), min_v=1)
+        c = gtio.gen_content(rng, maxs=4, maxv=6, allow_half_missing=False, multibase_ref=(t % 6 == 5), min_v=1, medium=0.06)
         if rng.random() < 0.2:
             # a contig whose name is longer than the 10 characters haptools keeps in its variants array
             for v in c["variants"]:
@@ -280,7 +280,7 @@ def _cell(i, j):
 
 def gen_subset(rng, tier):
     for _ in range(200 if tier == "quick" else 6000):
-        c = gtio.gen_content(rng, maxs=4, maxv=5, min_v=1)
+        c = gtio.gen_content(rng, maxs=4, maxv=5, min_v=1, medium=0.05)
         ns, nv = len(c["samples"]), len(c["variants"])
         c["data"] = [[_cell(i, j) for j in range(nv)] for i in range(ns)]
         c["cls"] = rng.choice(["Genotypes", "GenotypesVCF", "GenotypesPLINK"])
